@@ -228,7 +228,7 @@ func (s *Scanner) scanHexDigits(count int, scanAsManyAsPossible bool, canHaveSep
 		allowSeparator = canHaveSeparators
 		if ch >= 'A' && ch <= 'F' {
 			ch += 'a' - 'A'
-		} else if !(ch >= '0' && ch <= '9' || ch >= 'a' && ch <= 'z') {
+		} else if !(ch >= '0' && ch <= '9' || ch >= 'a' && ch <= 'f') {
 			break
 		}
 
